@@ -384,11 +384,16 @@ impl<'a> FormatFields<'a> for JsonFields {
         // separate layer, rather than a formatter for the `fmt` layer —
         // then, we could store fields as JSON values, and add to them
         // without having to parse and re-serialize.
+        //
+        // The keys are parsed into owned `String`s: a key that contains an
+        // escape sequence (a quote, a backslash or a control character in a
+        // field name) cannot be borrowed from the serialized text.
         let mut new = String::new();
-        let map: BTreeMap<&'_ str, serde_json::Value> =
+        let map: BTreeMap<String, serde_json::Value> =
             serde_json::from_str(current).map_err(|_| fmt::Error)?;
+        let (keys, values): (Vec<String>, Vec<serde_json::Value>) = map.into_iter().unzip();
         let mut v = JsonVisitor::new(&mut new);
-        v.values = map;
+        v.values = keys.iter().map(String::as_str).zip(values).collect();
         fields.record(&mut v);
         v.finish()?;
         current.fields = new;
